@@ -317,8 +317,8 @@ theorem machineLoop_run {lt : α → α → Bool} (hlt : SWO lt) (g : Bool) {M :
       seqs.length = M.n → Pinv seqs size → goodState M (oracleC g lt seqs M.n) st = true →
       size ≤ (xsOf seqs).flatten.length →
       ∃ fin out, machineLoop g lt M size st seqs = some (fin, out) ∧
-        StableRun lt (xsOf seqs) size out (xsOf fin) ∧ guardsOf fin = guardsOf seqs
-  | 0, st, seqs, _, _, _, _ => ⟨seqs, [], rfl, StableRun.done _, rfl⟩
+        StableRun lt (xsOf seqs) size out (xsOf fin) ∧ guardsOf fin = guardsOf seqs ∧ Pinv fin 0
+  | 0, st, seqs, _, hP, _, _ => ⟨seqs, [], rfl, StableRun.done _, rfl, hP⟩
   | size + 1, st, seqs, hn, hP, hgood, hsize => by
     have hv := hPv seqs size hP
     obtain ⟨_, _, _, _, hrows, horacle⟩ := tableOK_parts hM
@@ -335,7 +335,7 @@ theorem machineLoop_run {lt : α → α → Bool} (hlt : SWO lt) (g : Bool) {M :
       have hxs' := xsOf_set seqs a s q
       by_cases h0 : size = 0
       · subst h0
-        refine ⟨seqs.set a { s with xs := q }, [x], ?_, ?_, guardsOf_set hsa q⟩
+        refine ⟨seqs.set a { s with xs := q }, [x], ?_, ?_, guardsOf_set hsa q, hP'⟩
         · simp [machineLoop, hfind, hsa, hxa]
         · rw [hxs']
           exact StableRun.emit hmin (StableRun.done _)
@@ -370,9 +370,9 @@ theorem machineLoop_run {lt : α → α → Bool} (hlt : SWO lt) (g : Bool) {M :
           (oracleC_trans hlt g _ M.n)
         obtain ⟨st', hev, hgood'⟩ := hr row hrowmem (by rw [hrowperm]; exact htail)
         rw [hrowperm] at hev
-        obtain ⟨fin, out, hrec, hrun, hgd⟩ := machineLoop_run hlt g hM Pinv hPv hPs size st' (seqs.set a { s with xs := q })
+        obtain ⟨fin, out, hrec, hrun, hgd, hPf⟩ := machineLoop_run hlt g hM Pinv hPv hPs size st' (seqs.set a { s with xs := q })
           hn' hP' hgood' (by rw [hxs']; omega)
-        refine ⟨fin, x :: out, ?_, ?_, by rw [hgd, guardsOf_set hsa q]⟩
+        refine ⟨fin, x :: out, ?_, ?_, by rw [hgd, guardsOf_set hsa q], hPf⟩
         · have hb2 : evalBody g lt (seqs.set a { s with xs := q }) (a :: rest) row.ops M.body.tests M.body.dflt = some st' := by
             rw [hbody]; exact hev
           simp [machineLoop, hfind, hsa, hxa, h0, hb2, hrec]
@@ -393,14 +393,14 @@ theorem machineMerge_run {lt : α → α → Bool} (hlt : SWO lt) (g : Bool) {M 
     (seqs : List (Seq α)) (size : Nat) (hn : seqs.length = M.n) (hP : Pinv seqs size)
     (hsize : size ≤ (xsOf seqs).flatten.length) :
     ∃ fin out, machineMerge g lt M seqs size = some (fin, out) ∧
-      StableRun lt (xsOf seqs) size out (xsOf fin) ∧ guardsOf fin = guardsOf seqs := by
+      StableRun lt (xsOf seqs) size out (xsOf fin) ∧ guardsOf fin = guardsOf seqs ∧ Pinv fin 0 := by
   obtain ⟨he, hf, _, htree, _, horacle⟩ := tableOK_parts hM
   unfold machineMerge
   have hcond : (seqs.length ≠ M.n || !M.emitOK || !M.finishOK) = false := by simp [hn, he, hf]
   simp only [hcond, Bool.false_eq_true, if_false]
   by_cases h0 : size = 0
   · subst h0
-    exact ⟨seqs, [], by simp, StableRun.done _, rfl⟩
+    exact ⟨seqs, [], by simp, StableRun.done _, rfl, hP⟩
   · simp only [h0, if_false]
     have hv : ViewsOK g lt seqs := by
       obtain ⟨m, rfl⟩ : ∃ m, size = m + 1 := ⟨size - 1, by omega⟩
@@ -409,7 +409,7 @@ theorem machineMerge_run {lt : α → α → Bool} (hlt : SWO lt) (g : Bool) {M 
     rw [hn] at htr
     obtain ⟨⟨st, hev, hgood⟩, _⟩ := horacle _ (oracleC_mem g lt seqs M.n) (oracleC_trans hlt g _ M.n)
     have : evalTree g lt M seqs M.entry = some st := by rw [htr]; exact hev
-    obtain ⟨fin, out, hrec, hrun, hgd⟩ := machineLoop_run hlt g hM Pinv hPv hPs size st seqs hn hP hgood hsize
-    exact ⟨fin, out, by simp [this, hrec], hrun, hgd⟩
+    obtain ⟨fin, out, hrec, hrun, hgd, hPf⟩ := machineLoop_run hlt g hM Pinv hPv hPs size st seqs hn hP hgood hsize
+    exact ⟨fin, out, by simp [this, hrec], hrun, hgd, hPf⟩
 
 end TlxVerif.C05
